@@ -2,7 +2,7 @@
 import ast
 
 from sa import astq
-from sa.astq import ev_setattr, ev_hook, ev_callattr
+from sa.astq import ev_setattr, ev_hook, ev_callattr, norm_text
 from sa.idioms import status_test, guarded, is_discarded, call_consumed
 from sa.project import dotted
 
@@ -315,6 +315,48 @@ def has_effect(n):
 
 def r6(run, ctx):
     run.rule('R6', 'arbiter-level stop fan-out')
+    # Arbiter._stop_watchers: every watcher handed to it is stopped - no filter
+    from sa.dataflow import reaching_defs
+    sw = ctx.fn(A + '_stop_watchers')
+    rdw = reaching_defs(ctx, sw)
+    cfgw = ctx.cfg(sw)
+    stops = [s_ for s_ in ctx.sites_calling(sw, [W + '_stop'])]
+    if run.need('R6', stops, 'Watcher._stop calls in Arbiter._stop_watchers', sw,
+                'the arbiter-level stop stops no watcher'):
+        for s_ in stops:
+            okf = True
+            why = ''
+            comps = [x for x in s_.node.walk() if isinstance(x, (ast.ListComp, ast.GeneratorExp))
+                     and any(sub is s_.call for sub in ast.walk(x))]
+            iters = []
+            if comps:
+                g = comps[0].generators[0]
+                if g.ifs:
+                    okf, why = False, 'the comprehension filters with `%s`' % norm_text(g.ifs[0])
+                iters = [a.expr for a in rdw.expand(s_.node, g.iter)]
+            else:
+                hdr = [h for h in cfgw.nodes if h.kind == 'iter' and
+                       s_.node.id in cfgw.branch_nodes(h, 'true')]
+                tests = [t for t in cfgw.nodes if t.kind == 'test' and hdr and
+                         t.id in cfgw.branch_nodes(hdr[0], 'true') and
+                         s_.node.id in cfgw.branch_nodes(t, 'true') and
+                         s_.node.id not in cfgw.branch_nodes(t, 'false')]
+                if tests:
+                    okf, why = False, 'the call is conditional on `%s`' % norm_text(tests[0].ast)
+                iters = [a.expr for h in hdr[:1] for a in rdw.expand(h, h.ast.iter)]
+            for it in iters:
+                if isinstance(it, (ast.ListComp, ast.GeneratorExp)) and it.generators[0].ifs:
+                    okf, why = False, 'the watcher list is filtered with `%s`' % norm_text(
+                        it.generators[0].ifs[0])
+                elif not (isinstance(it, ast.Call) and astq.call_last(it) in (
+                        'iter_watchers', 'watcher_iter_func')):
+                    if not isinstance(it, ast.Name):
+                        okf, why = False, 'the watchers come from %s' % norm_text(it)[:80]
+            run.check('R6', okf and bool(iters), 'every watcher selected for the stop is stopped '
+                      '(no filter between the selection and Watcher._stop)', sw, s_.node.ast,
+                      'an arbiter-level stop/quit/restart skips some watchers (%s): their '
+                      'workers survive the completed stop' % why,
+                      construct='stop skips watchers')
     # _stop_watchers: futures built from every watcher of the iterator, yielded
     f = ctx.fn(A + '_stop_watchers')
     cfg = ctx.cfg(f)
